@@ -200,6 +200,8 @@ class HeapMixin(object):
   def havoc_patterns(self, st, pats):
     for p in pats:
       for key, sorts in self.expand_pattern(p):
+        if key == '$cls':
+          continue      # class tags of existing objects never change; tags of new objects are whatever they are
         self.havoc_key(st, key, sorts)
 
   def keys_of_patterns(self, pats):
